@@ -31,6 +31,8 @@ type c06fcfg struct {
 	op         string
 	behaviours []string
 	hostAddrs  string // "public" | "public+private" | "none"
+	frac       float64
+	instant    bool // every recipient answers at once (one worker after the other), default success-wait fraction
 }
 
 func c06fConfigs(tier string) []vmc.Cfg {
@@ -43,7 +45,16 @@ func c06fConfigs(tier string) []vmc.Cfg {
 				if ha != "public" && (m != 0 || !strings.HasPrefix(op, "provide")) {
 					continue
 				}
-				out = append(out, vmc.Cfg{Name: fmt.Sprintf("fullrt-puts/%s/%s/addrs-%s", op, strings.Join(as, ","), ha), Data: c06fcfg{op, as, ha}})
+				out = append(out, vmc.Cfg{Name: fmt.Sprintf("fullrt-puts/%s/%s/addrs-%s", op, strings.Join(as, ","), ha), Data: c06fcfg{op, as, ha, 1, false}})
+			}
+		}
+		// recipients that answer at once are handled one after the other by the bulk workers, so the
+		// "enough successes, stop after 500 ms" rule of the fan-out is in play (default fraction 0.3)
+		beh3 := []string{sim.BHonest, sim.BDialFail, sim.BReqFail}
+		for m := 0; m < 27; m++ {
+			as := []string{beh3[m%3], beh3[(m/3)%3], beh3[(m/9)%3]}
+			for _, frac := range []float64{0.3, 1} {
+				out = append(out, vmc.Cfg{Name: fmt.Sprintf("fullrt-puts/%s/%s/instant/frac%.1f", op, strings.Join(as, ","), frac), Data: c06fcfg{op, as, "public", frac, true}})
 			}
 		}
 	}
@@ -56,7 +67,7 @@ func TestVMC_C06fullrt(t *testing.T) {
 
 func c06fRun(x *vmc.X, cfg vmc.Cfg) {
 	c := cfg.Data.(c06fcfg)
-	e, err := newFRT(3, 0)
+	e, err := newFRT(3, 0, WithSuccessWaitFraction(c.frac))
 	if err != nil {
 		x.Failf("C06/setup", "%v", err)
 		return
@@ -89,7 +100,7 @@ func c06fRun(x *vmc.X, cfg vmc.Cfg) {
 	}
 	e.net.Instant = true
 	e.recrawl(crawl)
-	e.net.Instant = false
+	e.net.Instant = c.instant
 	ctx, cancelOp := context.WithCancel(context.Background())
 	defer func() { cancelOp(); synctest.Wait() }() // pruned executions leave the operation in flight
 	done := make(chan error, 1)
